@@ -60,6 +60,7 @@ def plan(tier, seed):
     rect = rect_cases(tier)
     nr = 3 if tier == 'quick' else 14
     shards.extend({'kind': 'rect', 'cases': rect[i::nr]} for i in range(nr))
+    shards.append({'kind': 'split', 'cases': split_cases(tier)})
     return shards
 
 
@@ -442,14 +443,126 @@ def run_fixunfix(ctx, spec):
         ctx.violation('contract:%s' % name, what, {'name': args[0]})
 
 
+# -- operations that need NEW names on a finished geometry, up to and beyond the end of the name space ----------------
+
+def split_cases(tier):
+    cases = []
+    for chars in ('bc', 'bcd', 'BCD', 'qz'):
+        n = len(chars)
+        for conv in range(4):
+            length = [3, 2, 3, 3][conv]
+            cap = letters_capacity(n, length, True)
+            shapes = [(2, 2), (3, 3), (3, 4), (2, 5), (4, 4), (5, 5), (6, 6)] if tier != 'quick' else [(2, 2), (3, 3), (3, 4), (5, 5)]
+            for (nx, ny) in shapes:
+                if conv in (0, 3) and (nx + 1) * (ny + 1) > cap:
+                    continue
+                cases.append({'kind': 'split', 'chars': chars, 'convention': conv, 'nx': nx, 'ny': ny,
+                              'case': 'u' if chars.isupper() else None})
+    return cases
+
+
+def run_split(ctx, spec):
+    mg = R.mulgrids
+    for c in spec['cases']:
+        n, conv = len(c['chars']), c['convention']
+        length = [3, 2, 3, 3][conv]
+        cap = letters_capacity(n, length, True)
+        try:
+            geo = mg.mulgrid().rectangular([10.] * c['nx'], [10.] * c['ny'], [1.] * 2, convention=conv, chars=c['chars'], case=c['case'])
+        except Exception as e:
+            raise HarnessError('building %r failed: %r' % (c, e))
+        ncols = c['nx'] * c['ny']
+        # names of the convention's length over the character set that are still unused: rectangular() names columns with
+        # these letters under conventions 0 and 3 (numbers 1..ncols) and with digits under 1 and 2
+        free = cap - ncols if conv in (0, 3) else cap
+        quads = [col.name for col in geo.columnlist]
+        done = 0
+        outcome = None
+        for k, name in enumerate(quads):
+            before = set(geo.column)
+            with ctx.guard(c, where='split_column', expected=(mg.NamingConventionError,)) as gd:
+                ok = geo.split_column(name, geo.column[name].node[0].name, chars=c['chars'])
+            ctx.count('splits_attempted')
+            if gd.raised is not None:
+                if isinstance(gd.raised, mg.NamingConventionError):
+                    outcome = 'naming-error'
+                else:
+                    outcome = 'other-error'
+                break
+            if done >= free:
+                # no name is left: anything but the naming error is wrong (a quiet False, a made-up longer name, a reused one)
+                newn = sorted(set(geo.column) - before)
+                ctx.violation('no-naming-error:split_column', 'split number %d of column %r returned %r (new columns %r) with all %d names over %r of length %d in use' % (
+                    k + 1, name, ok, newn, cap, c['chars'], length), c)
+                outcome = 'violation'
+                break
+            if ok is not True:
+                ctx.violation('split-refused-with-names-left', 'split number %d of quadrilateral column %r returned %r with %d of %d names free' % (k + 1, name, ok, free - done, cap), c)
+                outcome = 'violation'
+                break
+            done += 1
+            newn = sorted(set(geo.column) - before)
+            if len(newn) != 1 or len(newn[0]) != length or any(ch not in c['chars'] + ' ' for ch in newn[0]):
+                ctx.violation('split-new-name-malformed', 'split gave new column names %r (length %d, characters %r)' % (newn, length, c['chars']), c)
+                outcome = 'violation'
+                break
+        ctx.evaluated()
+        reach = free < len(quads)
+        ctx.case(('split', repr(sorted(c.items()))), nontrivial=True, sample=reach)
+        if outcome == 'naming-error':
+            if done < free:
+                ctx.violation('premature-naming-error:split_column', 'naming error after %d splits with %d names free' % (done, free - done), c)
+            else:
+                ctx.see('capacity_limit_crossed', 'split_column conv=%d' % conv)
+                ctx.count('splits_refused_by_naming_error')
+        elif outcome is None:
+            ctx.see('split_outcome', 'all quadrilaterals split conv=%d' % conv)
+            if len(set(geo.block_name_list)) != len(geo.block_name_list):
+                ctx.violation('duplicate-block-name:after-split', 'duplicate block names after splitting', c)
+        # refinement of the whole (fresh) geometry: needs a new node on every side and three more columns per column
+        try:
+            geo = mg.mulgrid().rectangular([10.] * c['nx'], [10.] * c['ny'], [1.] * 2, convention=conv, chars=c['chars'], case=c['case'])
+        except Exception as e:
+            raise HarnessError('building %r failed: %r' % (c, e))
+        nx, ny = c['nx'], c['ny']
+        nodes_after = (2 * nx + 1) * (2 * ny + 1)
+        cols_after = 4 * ncols
+        nodes_free = cap - (nx + 1) * (ny + 1) if conv in (0, 3) else cap
+        new_nodes = nodes_after - (nx + 1) * (ny + 1)
+        # (column names are taken while the old ones are still in use, so 4 per column must be free at some moment:
+        #  judged only where the outcome does not depend on that order)
+        surely_fails = new_nodes > nodes_free
+        surely_fits = new_nodes <= nodes_free and cols_after + ncols <= (cap if conv in (0, 3) else cap)
+        with ctx.guard(c, where='refine', expected=(mg.NamingConventionError,)) as gd:
+            geo.refine(chars=c['chars'])
+        ctx.count('refinements_attempted')
+        if gd.raised is None:
+            if surely_fails:
+                ctx.violation('no-naming-error:refine', 'refine() completed though %d new nodes were needed and %d names were free' % (new_nodes, nodes_free), c)
+            else:
+                ctx.see('refine_outcome', 'completed conv=%d' % conv)
+                names = [col.name for col in geo.columnlist] + [nd.name for nd in geo.nodelist]
+                if any(len(x) != length for x in names) or len(set(geo.column)) != geo.num_columns or geo.num_columns != cols_after or geo.num_nodes != nodes_after:
+                    ctx.violation('refine-names-malformed', 'after refine(): %d columns (want %d), %d nodes (want %d), names not of length %d: %r' % (
+                        geo.num_columns, cols_after, geo.num_nodes, nodes_after, length, [x for x in names if len(x) != length][:3]), c)
+        elif isinstance(gd.raised, mg.NamingConventionError):
+            if surely_fits:
+                ctx.violation('premature-naming-error:refine', 'refine() raised %s with %d names, %d nodes and %d columns needed' % (gd.raised, cap, nodes_after, cols_after), c)
+            else:
+                ctx.see('capacity_limit_crossed', 'refine conv=%d' % conv)
+                ctx.count('refinements_refused_by_naming_error')
+
+
 def run_shard(ctx, spec):
-    {'names': run_names, 'rect': run_rect, 'fixunfix': run_fixunfix}[spec['kind']](ctx, spec)
+    {'names': run_names, 'rect': run_rect, 'fixunfix': run_fixunfix, 'split': run_split}[spec['kind']](ctx, spec)
 
 
 def replay(ctx, case):
     mg = R.mulgrids
     if 'name' in case:
         check_name(ctx, mg, case['name'], 'replay')
+    elif case.get('kind') == 'split':
+        run_split(ctx, {'cases': [case]})
     elif 'nx' in case:
         run_rect(ctx, {'cases': [case]})
     elif 'function' in case and case['function'].endswith('_from_number'):
